@@ -529,9 +529,16 @@ var CopySignature = []byte("PGCOPY\n\377\r\n\000")
 // EncodeBinaryCopy encodes rows (nil element = NULL) as a binary COPY stream:
 // signature, flags, header-extension length, tuples and (optionally) trailer.
 func EncodeBinaryCopy(rows [][][]byte, trailer bool) []byte {
+	return EncodeBinaryCopyExt(rows, trailer, nil)
+}
+
+// EncodeBinaryCopyExt is EncodeBinaryCopy with a header extension area (which
+// readers must skip).
+func EncodeBinaryCopyExt(rows [][][]byte, trailer bool, ext []byte) []byte {
 	out := append([]byte{}, CopySignature...)
 	out = binary.BigEndian.AppendUint32(out, 0)
-	out = binary.BigEndian.AppendUint32(out, 0)
+	out = binary.BigEndian.AppendUint32(out, uint32(len(ext)))
+	out = append(out, ext...)
 	for _, r := range rows {
 		out = binary.BigEndian.AppendUint16(out, uint16(len(r)))
 		for _, f := range r {
